@@ -9,60 +9,41 @@ Record src := { binaries : list str; picked : list str }.
 Definition no_src : src := {| binaries := []; picked := [] |}.
 Definition builds (b : str) (x : src) : bool := existsb (str_eqb b) (binaries x).
 
-(* sourceMapping[binary] = source: a map filled in input order, so the last provider wins *)
-Fixpoint src_of_from (b : str) (base : nat) (l : list src) (acc : option nat) : option nat :=
-  match l with [] => acc | x :: r => src_of_from b (S base) r (if builds b x then Some base else acc) end.
-
-Lemma src_of_from_spec b t : forall l base acc, src_of_from b base l acc = Some t ->
-  acc = Some t \/ (base <= t < base + List.length l /\ builds b (nth (t - base) l no_src) = true).
-Proof.
-  induction l as [|x l IH]; intros base acc; cbn [src_of_from List.length]; [auto|].
-  intros E. apply IH in E. destruct E as [E|(R&Bd)].
-  - destruct (builds b x) eqn:Bx; [|now left]. inversion E; subst. right. split; [lia|].
-    replace (t - t) with 0 by lia. exact Bx.
-  - right. split; [lia|]. replace (t - base) with (S (t - S base)) by lia. exact Bd.
-Qed.
-
+(* sourceMapping[binary] = every source that lists the binary, in input order (repair 0173c55 of the r13 finding: the map used
+   to keep the LAST such source only, so a source could come out before another builder of a binary it build-depends on) *)
 Section Order.
   Variable srcs : list src.           (* sources in input order; a source is identified by its position (names are distinct) *)
-  Definition src_of (b : str) : option nat := src_of_from b 0 srcs None.
   Definition nth_src (i : nat) : src := nth i srcs no_src.
-  Definition edges_into (i : nat) : list nat :=
-    flat_map (fun b => match src_of b with Some t => [t] | None => [] end) (picked (nth_src i)).
+  Definition builders (b : str) : list nat := filter (fun t => builds b (nth_src t)) (seq 0 (List.length srcs)).
+  Definition edges_into (i : nat) : list nat := flat_map builders (picked (nth_src i)).
   Definition build_graph : graph := {| nodes := seq 0 (List.length srcs); preds := edges_into |}.
   Definition order_dscs : sres := sort build_graph.
 
-  Lemma edges_spec i t : In t (edges_into i) <-> exists b, In b (picked (nth_src i)) /\ src_of b = Some t.
+  (* the builders of a binary are exactly the sources of the input whose Binary field lists it *)
+  Lemma builders_spec b t : In t (builders b) <-> t < List.length srcs /\ builds b (nth_src t) = true.
   Proof.
-    unfold edges_into. rewrite in_flat_map. split.
-    - intros (b&Hb&Ht). exists b. split; [exact Hb|]. destruct (src_of b); [destruct Ht as [->|[]]; reflexivity|contradiction].
-    - intros (b&Hb&E). exists b. split; [exact Hb|]. rewrite E. now left.
+    unfold builders. rewrite filter_In, in_seq. split; [intros [A B]; split; [lia|exact B]|intros [A B]; split; [lia|exact B]].
   Qed.
+  Lemma edges_spec i t : In t (edges_into i) <-> exists b, In b (picked (nth_src i)) /\ In t (builders b).
+  Proof. unfold edges_into. rewrite in_flat_map. reflexivity. Qed.
 
-  (* the provider recorded for a binary is a source of the input that builds it *)
-  Lemma src_of_spec b t : src_of b = Some t -> t < List.length srcs /\ builds b (nth_src t) = true.
-  Proof.
-    unfold src_of, nth_src. intros E. apply src_of_from_spec in E. destruct E as [E|(R&Bd)]; [discriminate|].
-    rewrite Nat.sub_0_r in Bd. split; [lia|exact Bd].
-  Qed.
-
-  (* C19: the order is a permutation of the input, and every source comes after the provider of each binary it
+  (* C19: the order is a permutation of the input, and every source comes after EVERY source that builds a binary it
      picked from its build-dependency fields *)
   Theorem C19_order l : order_dscs = SOk l ->
     Permutation l (seq 0 (List.length srcs)) /\
-    forall l1 i l2, l = l1 ++ i :: l2 -> forall b t, In b (picked (nth_src i)) -> src_of b = Some t ->
-      In t l1 /\ builds b (nth_src t) = true.
+    forall l1 i l2, l = l1 ++ i :: l2 -> forall b t, In b (picked (nth_src i)) ->
+      t < List.length srcs -> builds b (nth_src t) = true -> In t l1.
   Proof.
     intros E. destruct (sort_sound build_graph l (seq_NoDup _ _) E) as [P O]. split; [exact P|].
-    intros l1 i l2 El b t Hb Hs. split; [|now apply src_of_spec].
-    apply (O l1 i l2 El). cbn [preds build_graph]. apply edges_spec. eauto.
+    intros l1 i l2 El b t Hb Ht Hbd.
+    apply (O l1 i l2 El). cbn [preds build_graph]. apply edges_spec. exists b. split; [exact Hb|]. now apply builders_spec.
   Qed.
 
   (* a dependency cycle gives an error, never an order: no arrangement of the sources satisfies the constraints *)
   Theorem C19_cycle : order_dscs = SCycle -> forall t, ~ topological build_graph t.
   Proof.
     apply sort_cycle. intros n p _ Hp. cbn [preds build_graph] in Hp. apply edges_spec in Hp as (b&_&E).
-    apply src_of_spec in E as [Hlt _]. cbn [nodes build_graph]. apply in_seq. lia.
+    apply builders_spec in E as [Hlt _]. cbn [nodes build_graph]. apply in_seq. lia.
   Qed.
 
   Theorem C19_terminates : order_dscs <> SFuel.
